@@ -130,7 +130,7 @@ PROPS = {
     "C10": dict(
         gens=[tlc("c10", "quick"), tlc("c10full", "thorough"), rand("cached_hist", 500, "quick"), rand("cached_hist", 30000, "thorough")],
         tv_props=["C10", "DRIFT"],
-        mc=[dict(module="MC_SplitM.tla", cfg="MC_SplitM")],
+        mc=[dict(module="MC_SplitM.tla", cfg="MC_SplitM"), dict(module="MC_TreeC.tla", cfg="MC_TreeC")],
         must_fire=["C10.source", "C10.buffer", "C10.size", "C10.hash_stable",
                    "C10.map_cold", "C10.map_filled_by_map", "C10.map_filled_by_stream", "C10.map_through_parent",
                    "C10.stream_cold", "C10.stream_filled_by_map", "C10.stream_filled_by_stream"],
